@@ -1467,9 +1467,25 @@ impl<Front: SocketHandler, L: ListenerHandler> SessionState for Pipe<Front, L> {
     }
 
     fn close(&mut self, _proxy: Rc<RefCell<dyn L7Proxy>>, _metrics: &mut SessionMetrics) {
-        if let Some(backend) = self.backend.as_mut() {
+        // `take()` keeps the release idempotent: the backend handle is only
+        // present for a WebSocket pipe, which inherited a live backend
+        // connection from the mux. `upgrade_mux` removed that connection from
+        // the router's backend map, so `Mux::close` no longer accounts for
+        // it: the pipe must give back the connection slot and the gauges the
+        // mux took in `router.rs::connect` (mirror of
+        // `Connection::pre_close_client_bookkeeping`).
+        if let Some(backend) = self.backend.take() {
             let mut backend = backend.borrow_mut();
             backend.active_requests = backend.active_requests.saturating_sub(1);
+            backend.dec_connections();
+            gauge_add!(names::backend::CONNECTIONS, -1);
+            gauge_add!(names::backend::POOL_SIZE, -1);
+            gauge_add!(
+                names::backend::CONNECTIONS_PER_BACKEND,
+                -1,
+                self.cluster_id.as_deref(),
+                Some(&backend.backend_id)
+            );
         }
     }
 
